@@ -42,13 +42,17 @@ SECOND = ['pop', 'insert_gate', 'append_gate', 'replace_gate', 'fold', 'unfold',
 def obligations(tier: str, oracle: str = ORACLE) -> list[dict]:
     obs = []
 
-    def ob(kinds: list, W: int, npre: int, timeout: int, codes: list | None = None, prepop: bool = True) -> None:
+    def ob(kinds: list, W: int, npre: int, timeout: int, codes: list | None = None, prepop: bool = True,
+           pin: dict | None = None) -> None:
         sh = {'W': W, 'npre': npre, 'kinds': kinds, 'oracle': oracle, 'prepop': prepop}
+        if pin:
+            sh['pin'] = pin
         if codes is not None:
             sh['codes'] = codes
         obs.append({'name': '%s/W%d/pre%d%s%s' % ('+'.join(kinds), W, npre,
                                                    '' if codes is None else '/codes' + ''.join(map(str, codes)),
-                                                   '' if prepop else '/nopop'),
+                                                   ('' if prepop else '/nopop') +
+                                                   ('' if not pin else '/pin' + '.'.join('%s=%s' % kv for kv in sorted(pin.items())))),
                     'shard': sh, 'timeout': timeout})
 
     NOBLK = [1, 2, 3]   # get_inverse of a CircuitGate needs numerics (DaggerGate): tagged gates have none
@@ -64,6 +68,10 @@ def obligations(tier: str, oracle: str = ORACLE) -> list[dict]:
         for k1 in ['renumber', 'insert_qudit', 'pop_qudit']:
             for k2 in ['pop', 'insert_gate', 'replace_gate']:
                 ob([k1, k2], 3, 1, 120, [2, 3], False)
+        # a replace that re-keys the dependency node, then a removal that deletes a cycle (3-op pre-states)
+        for a0 in (0, 1):
+            for q in (0, 1):
+                ob(['replace_gate', 'pop'], 2, 3, 200, [1, 2], False, {'0': a0, '1': q})
     else:
         for k in KINDS:
             for W in (1, 2, 3):
